@@ -206,6 +206,6 @@ def c05(work, tier, seed):
                                "Front.tla: ShouldReach / Challenges over every startable mechanism set x request class (design). Conformance: the real binary (TLS where local auth needs it) with the real rdpgw-auth (stub PAM, NTLM "
                                "user file) behind it, one instance per startable subset of {openid, kerberos, local, ntlm} enumerated by TLC; 27 Authorization classes (absent, empty, bare/truncated/embedded/wrong-case schemes, right and "
                                "wrong Basic and NTLM credentials, NTLM on two connections or without negotiate, several headers, garbage SPNEGO) x HTTP methods; 'reached the handler' and the user it was reached as come from the gw.enter hook; "
-                               "Kerberos tickets are exercised only negatively (no KDC in the sandbox): the only-if direction is decided for SPNEGO, not the if direction", jobs=12)
+                               "Kerberos: the harness plays the KDC - service tickets made with the key in the gateway's keytab (valid, expired, not yet valid, inside the clock-skew allowance, made with another key, for another service)", jobs=12)
     out.coverage["mechanism_sets"] = ["+".join(m) for m in msets]
     return out
